@@ -106,9 +106,9 @@ def w1_bit_step(prog):
         its = [i for i in range(1, fn.body.argc + 1) if absint.is_iter_ty(fn.body.local_ty(i))]
         if not its:
             continue
-        r.inst('%s: %d paths' % (key, len(paths)))
+        r.inst('%s: %d paths' % (key, len(paths)), tag=fn.name)
         if it.truncated:
-            r.viol('W1', key + '/truncated', fn.loc(), 'path enumeration truncated: function too complex for the walk analysis')
+            r.viol('W1', key + '/truncated', fn.loc(), 'path enumeration truncated: function too complex for the walk analysis', tag=fn.name)
         for p in paths:
             if p.ended != 'return':
                 continue
@@ -116,20 +116,20 @@ def w1_bit_step(prog):
                 n = len([e for e in p.events if e['k'] == 'next' and e['it'] == i])
                 tails = tail_events(p)
                 if n > 1:
-                    r.viol('W1', key + '/double-next', fn.loc(), 'identifier iterator advanced %d times in one step: later components are read against the wrong bits' % n)
+                    r.viol('W1', key + '/double-next', fn.loc(), 'identifier iterator advanced %d times in one step: later components are read against the wrong bits' % n, tag=fn.name)
                 if tails and all(t.get('delegate') for t in tails):
                     if n != 0:
-                        r.viol('W1', key + '/next-in-delegate', fn.loc(), 'a wrapper that hands the whole walk to another trait consumes an identifier bit')
+                        r.viol('W1', key + '/next-in-delegate', fn.loc(), 'a wrapper that hands the whole walk to another trait consumes an identifier bit', tag=fn.name)
                 elif tails and n == 0 and not is_terminal_contained(imp):
-                    r.viol('W1', key + '/no-next-before-tail', fn.loc(tails[0]['ln']), 'tail call reached without consuming this component\'s identifier bit')
+                    r.viol('W1', key + '/no-next-before-tail', fn.loc(tails[0]['ln']), 'tail call reached without consuming this component\'s identifier bit', tag=fn.name)
                 for t in tails:
                     pos = i - 1
                     if pos < len(t['args']):
                         a = t['args'][pos]
                         if not (a[0] == 'it' and a[1] == i):
-                            r.viol('W1', key + '/wrong-iterator', fn.loc(t['ln']), 'tail call does not receive this step\'s identifier iterator')
+                            r.viol('W1', key + '/wrong-iterator', fn.loc(t['ln']), 'tail call does not receive this step\'s identifier iterator', tag=fn.name)
                         elif a[2] != n:
-                            r.viol('W1', key + '/stale-iterator', fn.loc(t['ln']), 'tail call receives the iterator at a different position than this step left it')
+                            r.viol('W1', key + '/stale-iterator', fn.loc(t['ln']), 'tail call receives the iterator at a different position than this step left it', tag=fn.name)
     return r
 
 
@@ -149,7 +149,7 @@ def w2_column_step(prog):
         its = [i for i in range(1, body.argc + 1) if absint.is_iter_ty(body.local_ty(i))]
         if not cols:
             continue
-        r.inst('%s: cols=%s' % (key, [body.local_name(c) for c in cols]))
+        r.inst('%s: cols=%s' % (key, [body.local_name(c) for c in cols]), tag=fn.name)
         terminal = is_terminal_contained(imp)
         for p in paths:
             if p.ended != 'return':
@@ -159,12 +159,12 @@ def w2_column_step(prog):
             accesses = [e for e in p.events if e['k'] == 'col_access']
             for e in accesses:
                 if e['off'] != 0 or e['idx'] != 0:
-                    r.viol('W2', key + '/foreign-column', fn.loc(e['ln']), 'step touches column %d of the list at offset %d: only the head column belongs to this component' % (e['idx'], e['off']))
+                    r.viol('W2', key + '/foreign-column', fn.loc(e['ln']), 'step touches column %d of the list at offset %d: only the head column belongs to this component' % (e['idx'], e['off']), tag=fn.name)
                 if bit is False:
-                    r.viol('W2', key + '/access-on-clear-bit', fn.loc(e['ln']), 'column 0 is accessed on a path where this component\'s bit is clear (it belongs to another component)')
+                    r.viol('W2', key + '/access-on-clear-bit', fn.loc(e['ln']), 'column 0 is accessed on a path where this component\'s bit is clear (it belongs to another component)', tag=fn.name)
             for e in p.events:
                 if e['k'] in ('col_access_dynamic', 'col_other', 'col_clobber'):
-                    r.viol('W2', key + '/unrecognised-column-use', fn.loc(e['ln']), 'column list used in a way the step analysis does not model (%s)' % e['k'])
+                    r.viol('W2', key + '/unrecognised-column-use', fn.loc(e['ln']), 'column list used in a way the step analysis does not model (%s)' % e['k'], tag=fn.name)
             tails = tail_events(p)
             for t in tails:
                 for c in cols:
@@ -182,45 +182,45 @@ def w2_column_step(prog):
                         if bit is None and its:
                             want = None
                         if want is not None and pushes != want:
-                            r.viol('W2', key + '/colvec-push-mismatch', fn.loc(t['ln']), 'output column list receives %d entries on a path where the bit is %s' % (pushes, bit))
+                            r.viol('W2', key + '/colvec-push-mismatch', fn.loc(t['ln']), 'output column list receives %d entries on a path where the bit is %s' % (pushes, bit), tag=fn.name)
                         for e in others:
-                            r.viol('W2', key + '/colvec-other', fn.loc(e['ln']), 'output column list modified by %s' % e['name'])
+                            r.viol('W2', key + '/colvec-other', fn.loc(e['ln']), 'output column list modified by %s' % e['name'], tag=fn.name)
                         continue
                     if a[0] != 'col' or a[1] != c:
-                        r.viol('W2', key + '/wrong-columns', fn.loc(t['ln']), 'tail call does not receive this step\'s column list (parameter %s)' % body.local_name(c))
+                        r.viol('W2', key + '/wrong-columns', fn.loc(t['ln']), 'tail call does not receive this step\'s column list (parameter %s)' % body.local_name(c), tag=fn.name)
                         continue
                     off = a[2]
                     used = any(e['col'] == c for e in accesses)
                     if t.get('delegate'):
                         if off != 0 or used:
-                            r.viol('W2', key + '/delegate-touches-columns', fn.loc(t['ln']), 'a wrapper that hands the whole walk to another trait must pass the column list untouched')
+                            r.viol('W2', key + '/delegate-touches-columns', fn.loc(t['ln']), 'a wrapper that hands the whole walk to another trait must pass the column list untouched', tag=fn.name)
                         continue
                     if bit is True:
                         if off != 1:
                             r.viol('W2', key + '/no-advance-on-set-bit', fn.loc(t['ln']),
-                                   'bit set but column list %s passed to the tail at offset %d: every later component is read from the wrong column' % (body.local_name(c), off))
+                                   'bit set but column list %s passed to the tail at offset %d: every later component is read from the wrong column' % (body.local_name(c), off), tag=fn.name)
                     elif bit is False:
                         if off != 0:
-                            r.viol('W2', key + '/advance-on-clear-bit', fn.loc(t['ln']), 'bit clear but column list %s advanced by %d' % (body.local_name(c), off))
+                            r.viol('W2', key + '/advance-on-clear-bit', fn.loc(t['ln']), 'bit clear but column list %s advanced by %d' % (body.local_name(c), off), tag=fn.name)
                     else:
                         if tid:
                             if off != 0 or used:
-                                r.viol('W2', key + '/skip-touches-columns', fn.loc(t['ln']), 'TypeId-guarded skip path must leave the column list untouched')
+                                r.viol('W2', key + '/skip-touches-columns', fn.loc(t['ln']), 'TypeId-guarded skip path must leave the column list untouched', tag=fn.name)
                         elif its and not [e for e in p.events if e['k'] == 'next']:
                             pass   # W1 reports
                         else:
                             # present by contract: bit ignored (or no iterator at all)
                             if off != 1 or not used:
                                 r.viol('W2', key + '/presence-assumed-but-not-consumed', fn.loc(t['ln']),
-                                       'component assumed present (bit not inspected) but column 0 is %s and the list is advanced by %d' % ('used' if used else 'not used', off))
+                                       'component assumed present (bit not inspected) but column 0 is %s and the list is advanced by %d' % ('used' if used else 'not used', off), tag=fn.name)
                             presence_assumed.append(key)
             if not tails and not terminal:
                 # early return: must be caused by a non-bit condition
                 other = [c for c in p.conds if c[0] not in ('bit', 'typeid_eq')]
                 if not other:
-                    r.viol('W2', key + '/missing-tail-call', fn.loc(), 'a path returns without recursing into the tail registry: remaining components are skipped')
+                    r.viol('W2', key + '/missing-tail-call', fn.loc(), 'a path returns without recursing into the tail registry: remaining components are skipped', tag=fn.name)
             if len(tails) > 1:
-                r.viol('W2', key + '/double-tail', fn.loc(tails[1]['ln']), 'tail walk invoked twice on one path')
+                r.viol('W2', key + '/double-tail', fn.loc(tails[1]['ln']), 'tail walk invoked twice on one path', tag=fn.name)
     r.presence_assumed = sorted(set(presence_assumed))
     return r
 
@@ -235,7 +235,7 @@ def w3_typed_access(prog):
         it, paths = traces(prog, fn)
         key = fn_key(fn, imp)
         head = head_elem_key(imp)
-        r.inst('%s: head=%s' % (key, ty_str(json.loads(head))))
+        r.inst('%s: head=%s' % (key, ty_str(json.loads(head))), tag=fn.name)
         for p in paths:
             ok_other = set()
             for c in path_typeid_true(p):
@@ -268,7 +268,7 @@ def w3_typed_access(prog):
                     continue
                 # MaybeUninit<C> slices etc. wrap the head type: still wrong for raw parts
                 r.viol('W3', key + '/wrong-type/' + e['k'], fn.loc(e.get('ln')),
-                       '%s at type %s in the step for component %s: the column would be reinterpreted as another type' % (e['k'], ty_str(json.loads(T)), ty_str(json.loads(head))))
+                       '%s at type %s in the step for component %s: the column would be reinterpreted as another type' % (e['k'], ty_str(json.loads(T)), ty_str(json.loads(head))), tag=fn.name)
     return r
 
 
@@ -342,19 +342,19 @@ def w5_length_provenance(prog):
                     oracle = 'parameter naming (no external call site pairs this column list with a length)'
                 if not ok:
                     r.viol('W5', key + '/wrong-length', fn.loc(e['ln']),
-                           'column of %s rebuilt with length %s, which is not the length belonging to that column list [%s]' % (body.local_name(c), absint.describe(ln), oracle))
+                           'column of %s rebuilt with length %s, which is not the length belonging to that column list [%s]' % (body.local_name(c), absint.describe(ln), oracle), tag=fn.name)
                 if src[4] != 0:
-                    r.viol('W5', key + '/ptr-from-cap', fn.loc(e['ln']), 'pointer of the rebuilt column is not the slot\'s pointer field')
+                    r.viol('W5', key + '/ptr-from-cap', fn.loc(e['ln']), 'pointer of the rebuilt column is not the slot\'s pointer field', tag=fn.name)
                 if e['what'] == 'vec':
                     cap = e['cap']
                     if not (cap[0] == 'elemf' and cap[1:4] == src[1:4] and cap[4] == 1):
-                        r.viol('W5', key + '/wrong-capacity', fn.loc(e['ln']), 'capacity of the rebuilt Vec is not the capacity stored in the same column slot')
+                        r.viol('W5', key + '/wrong-capacity', fn.loc(e['ln']), 'capacity of the rebuilt Vec is not the capacity stored in the same column slot', tag=fn.name)
                 if vk is not None and e['what'].startswith('slice'):
                     if (e['what'] == 'slice_mut') != vk[1]:
                         r.viol('W5', key + '/slice-mutability', fn.loc(e['ln']),
-                               'view kind is %s but the column is exposed through %s' % ('mutable' if vk[1] else 'shared', e['what']))
+                               'view kind is %s but the column is exposed through %s' % ('mutable' if vk[1] else 'shared', e['what']), tag=fn.name)
         if seen:
-            r.inst('%s%s' % (key, ' [pairing %s]' % pr if pr else ' [by name]'))
+            r.inst('%s%s' % (key, ' [pairing %s]' % pr if pr else ' [by name]'), tag=fn.name)
     return r
 
 
@@ -395,18 +395,18 @@ def o1_reconstructed_owner(prog):
             if fn.name in FREE_ROLE:
                 bit = path_bit(p, its[0]) if its else None
                 if bit is True and tail_events(p) and len(drops) != 1:
-                    r.viol('O1', key + '/free-count', fn.loc(), 'free-role walk drops %d Vecs on a set-bit path (must free this column exactly once)' % len(drops))
+                    r.viol('O1', key + '/free-count', fn.loc(), 'free-role walk drops %d Vecs on a set-bit path (must free this column exactly once)' % len(drops), tag=fn.name)
                 if bit is False and drops:
-                    r.viol('O1', key + '/free-on-clear-bit', fn.loc(), 'free-role walk frees a column on a clear-bit path')
+                    r.viol('O1', key + '/free-on-clear-bit', fn.loc(), 'free-role walk frees a column on a clear-bit path', tag=fn.name)
             else:
                 for d in drops:
                     r.viol('O1', key + '/drops-live-column', fn.loc(d['ln']),
-                           'a Vec rebuilt from a live column is dropped here (not wrapped in ManuallyDrop): the column would be freed twice')
+                           'a Vec rebuilt from a live column is dropped here (not wrapped in ManuallyDrop): the column would be freed twice', tag=fn.name)
             for e in p.events:
                 if e['k'] == 'md_unwrap' and e['value'][0] == 'vec' and fn.name not in FREE_ROLE:
-                    r.viol('O1', key + '/md-unwrapped', fn.loc(e['ln']), 'ManuallyDrop around a rebuilt column is unwrapped')
+                    r.viol('O1', key + '/md-unwrapped', fn.loc(e['ln']), 'ManuallyDrop around a rebuilt column is unwrapped', tag=fn.name)
         if any_vec:
-            r.inst(key)
+            r.inst(key, tag=fn.name)
     return r
 
 
@@ -441,7 +441,7 @@ def o2_write_back(prog):
                                 if pv[0] in ('vecptr_u8', 'vecptr') and pv[1][:2] == v[:2] and cv[0] == 'veccap' and cv[1][:2] == v[:2]:
                                     ok = True
                                 else:
-                                    r.viol('O2', key + '/write-back-other', fn.loc(w['ln']), 'column slot overwritten with something other than (ptr, capacity) of the Vec rebuilt from it')
+                                    r.viol('O2', key + '/write-back-other', fn.loc(w['ln']), 'column slot overwritten with something other than (ptr, capacity) of the Vec rebuilt from it', tag=fn.name)
                                     ok = True
                             break
                         if w['k'] == 'slot_field_write' and w['slot'][1:4] == slot:
@@ -451,7 +451,7 @@ def o2_write_back(prog):
                             elif w['f'] == 1 and val[0] == 'veccap' and val[1][:2] == v[:2]:
                                 fw[1] = True
                             else:
-                                r.viol('O2', key + '/write-back-other', fn.loc(w['ln']), 'column slot field overwritten with something other than ptr/capacity of the Vec rebuilt from it')
+                                r.viol('O2', key + '/write-back-other', fn.loc(w['ln']), 'column slot field overwritten with something other than ptr/capacity of the Vec rebuilt from it', tag=fn.name)
                                 fw[w['f']] = True
                             if fw.get(0) and fw.get(1):
                                 ok = True
@@ -461,7 +461,7 @@ def o2_write_back(prog):
                             break
                     if not ok:
                         r.viol('O2', key + '/missing-write-back', fn.loc(e['ln']),
-                               'Vec::%s may move the column\'s buffer but the slot is not updated with the new (ptr, capacity) before the step continues: dangling column pointer' % e['name'])
+                               'Vec::%s may move the column\'s buffer but the slot is not updated with the new (ptr, capacity) before the step continues: dangling column pointer' % e['name'], tag=fn.name)
             # slot writes with values not derived from the Vec rebuilt from that slot
             for w in evs:
                 if w['k'] == 'slot_write':
@@ -470,13 +470,13 @@ def o2_write_back(prog):
                     if good and val[1][0][1][0] == 'fresh':
                         continue   # adoption / fresh column: O3 and O6 decide
                     if not good:
-                        r.viol('O2', key + '/odd-slot-write', fn.loc(w['ln']), 'column slot written with a value that is not (ptr, capacity) of one Vec')
+                        r.viol('O2', key + '/odd-slot-write', fn.loc(w['ln']), 'column slot written with a value that is not (ptr, capacity) of one Vec', tag=fn.name)
                     else:
                         src = val[1][0][1]
                         if src[0] == 'vec' and vec_slot(src) != w['slot'][1:4]:
-                            r.viol('O2', key + '/cross-slot-write', fn.loc(w['ln']), 'column slot overwritten with the raw parts of a Vec rebuilt from a different slot')
+                            r.viol('O2', key + '/cross-slot-write', fn.loc(w['ln']), 'column slot overwritten with the raw parts of a Vec rebuilt from a different slot', tag=fn.name)
         if found:
-            r.inst(key)
+            r.inst(key, tag=fn.name)
     return r
 
 
@@ -509,9 +509,9 @@ def o3_fresh_owner_escapes(prog):
             for e in p.events:
                 if e['k'] == 'drop' and not e.get('cleanup') and e['value'][0] == 'fresh' and e['value'][1] in escaped:
                     r.viol('O3', key + '/escaped-vec-dropped', fn.loc(e['ln']),
-                           'a fresh Vec whose (ptr, capacity) were stored as a column is dropped at the end of the step: the stored column dangles')
+                           'a fresh Vec whose (ptr, capacity) were stored as a column is dropped at the end of the step: the stored column dangles', tag=fn.name)
         if found:
-            r.inst(key)
+            r.inst(key, tag=fn.name)
     return r
 
 
@@ -527,14 +527,14 @@ def o5_packed_buffer_linearity(prog):
         has_buf = any(e['k'] == 'buf_adv' for p in paths for e in p.events)
         if not has_buf:
             continue
-        r.inst(key)
+        r.inst(key, tag=fn.name)
         for p in paths:
             if p.ended != 'return':
                 continue
             evs = p.events
             for i, e in enumerate(evs):
                 if e['k'] == 'buf_adv_other':
-                    r.viol('O5', key + '/odd-advance', fn.loc(e['ln']), 'buffer cursor advanced by something other than size_of of the head component')
+                    r.viol('O5', key + '/odd-advance', fn.loc(e['ln']), 'buffer cursor advanced by something other than size_of of the head component', tag=fn.name)
                 if e['k'] != 'buf_adv':
                     continue
                 cur = e['buf']
@@ -554,7 +554,7 @@ def o5_packed_buffer_linearity(prog):
                         if consumed:
                             ok = True
                         else:
-                            r.viol('O5', key + '/read-not-consumed', fn.loc(w['ln']), 'value read out of the packed buffer is neither stored nor dropped')
+                            r.viol('O5', key + '/read-not-consumed', fn.loc(w['ln']), 'value read out of the packed buffer is neither stored nor dropped', tag=fn.name)
                             ok = True
                         break
                     if w['k'] == 'ptr_write' and w['dst'][0] == 'tptr' and w['dst'][1] == cur and w['dst'][2] == T:
@@ -562,19 +562,19 @@ def o5_packed_buffer_linearity(prog):
                         break
                 if not ok:
                     r.viol('O5', key + '/advance-without-consume', fn.loc(e['ln']),
-                           'packed-buffer cursor skips a %s without reading (and storing or dropping) it: the value is leaked' % ty_str(json.loads(T)))
+                           'packed-buffer cursor skips a %s without reading (and storing or dropping) it: the value is leaked' % ty_str(json.loads(T)), tag=fn.name)
             inits = [e for e in evs if e['k'] == 'assume_init']
             if len(inits) > 1:
-                r.viol('O5', key + '/double-assume-init', fn.loc(inits[1]['ln']), 'spare component assume_init-ed twice on one path (double use of one value)')
+                r.viol('O5', key + '/double-assume-init', fn.loc(inits[1]['ln']), 'spare component assume_init-ed twice on one path (double use of one value)', tag=fn.name)
             for e in inits:
                 if not path_typeid_true(p):
-                    r.viol('O5', key + '/unguarded-assume-init', fn.loc(e['ln']), 'spare component consumed outside its TypeId guard')
+                    r.viol('O5', key + '/unguarded-assume-init', fn.loc(e['ln']), 'spare component consumed outside its TypeId guard', tag=fn.name)
             # reads from the buffer must be at the current cursor (no re-read of an already consumed position)
             reads = [e for e in evs if e['k'] == 'ptr_read' and e['src'][0] == 'tptr' and e['src'][1][0] == 'buf']
             seen_pos = set()
             for e in reads:
                 if e['src'][1] in seen_pos:
-                    r.viol('O5', key + '/double-read', fn.loc(e['ln']), 'the same packed-buffer position is read twice (value duplicated)')
+                    r.viol('O5', key + '/double-read', fn.loc(e['ln']), 'the same packed-buffer position is read twice (value duplicated)', tag=fn.name)
                 seen_pos.add(e['src'][1])
     return r
 
@@ -608,10 +608,10 @@ def o6_adoption_guard(prog):
                                and c[1][2][0] == 'param' and c[1][3] == ('const', 0) for c in p.conds)
                 if not cap_zero:
                     r.viol('O6', key + '/adopt-over-allocated', fn.loc(w['ln']),
-                           'column slot overwritten with a caller-provided Vec without checking that the old column owns no buffer (capacity == 0): the old allocation leaks')
+                           'column slot overwritten with a caller-provided Vec without checking that the old column owns no buffer (capacity == 0): the old allocation leaks', tag=fn.name)
                 if not len_zero:
                     r.viol('O6', key + '/adopt-over-rows', fn.loc(w['ln']),
-                           'column slot overwritten with a caller-provided Vec without checking that the column is empty (length == 0): stored rows are lost')
+                           'column slot overwritten with a caller-provided Vec without checking that the column is empty (length == 0): stored rows are lost', tag=fn.name)
         if found:
-            r.inst(key)
+            r.inst(key, tag=fn.name)
     return r
